@@ -63,9 +63,34 @@ def prToJson : Json.PR Val → Json
   | .bad => Json.mkObj [("bad", true)]
   | .outside => Json.mkObj [("outside", true)]
 
+def optStr (j : Json) (k : String) : Option String :=
+  match j.getObjVal? k with
+  | .ok (.str v) => some v
+  | _ => none
+
+def sopOfJson (j : Json) : Except String SOp := do
+  let f ← formatOf j
+  let ctx ← Ctx.ofJson (← j.getObjVal? "ctx")
+  match ← (← j.getObjVal? "op").getStr? with
+  | "write" => pure (.write f ctx)
+  | "fetch" => pure (.fetch f ctx)
+  | "format" => pure (.format f ctx (← (← j.getObjVal? "in").getStr?) (optStr j "out"))
+  | s => throw s!"unknown session op {s}"
+
+def sobsToJson : SObs → Except String Json
+  | .wrote => pure (Json.str "wrote")
+  | .formatted => pure (Json.str "formatted")
+  | .fetched cx => pure (Json.mkObj [("fetched", Ctx.toJson cx)])
+  | .failed e =>
+    if e.name == "OutOfDomain" then throw ("out of domain: " ++ e.msg)
+    else if e.name == "OutOfFuel" then throw "out of fuel"
+    else pure (Json.mkObj [("failed", e.toJson)])
+
 /-- ops:
     `fmtdoc`     {ctx, doc}                 → formatted document
     `fileformat` {format, ctx, doc}         → ObjectRewriter at value level (ideal codec)
+                 … + {enc: {encoding?, encodingIn?, encodingOut?}, out: null|path} → file level: {ok, enc, target}
+    `session`    {files, ops}               → `runSession`: observations of every op + the files afterwards
     `write`      {format, ctx}              → {path, payload} handed to the serialiser, or err
     `writefetch` {format, ctx, ctx2}        → context after filewrite(ctx) then fetch(ctx2)
     `parser`     {format, doc}              → file context parser on a file holding doc
@@ -83,7 +108,25 @@ def handle (op : String) (j : Json) : Except String Json := do
     let ctx ← Ctx.ofJson (← j.getObjVal? "ctx")
     let d ← Val.ofJson (← j.getObjVal? "doc")
     if !representable f d then throw "source document not representable in the format"
-    excResult Val.toJson (fileFormatDoc (idealFor f) (fuelOf j) ctx d)
+    match j.getObjVal? "enc" with
+    | .error _ => excResult Val.toJson (fileFormatDoc (idealFor f) (fuelOf j) ctx d)
+    | .ok ej =>
+      -- file level: {enc: {encoding?, encodingIn?, encodingOut?}, out: null | path}; the source is "in"
+      if f == .toml then throw "toml files are binary: no encoding options"
+      let o : EncOpts := { encoding := optStr ej "encoding", encodingIn := optStr ej "encodingIn",
+                           encodingOut := optStr ej "encodingOut" }
+      let out := optStr j "out"
+      let files : Files (Stored Val) := [("in", ⟨o.inEnc "utf-8", d⟩)]
+      match fileFormatFile (idealFor f) (fuelOf j) ctx files "in" out o "utf-8" with
+      | .error e =>
+        if e.name == "OutOfDomain" then throw ("out of domain: " ++ e.msg)
+        else if e.name == "OutOfFuel" then throw "out of fuel"
+        else pure (Json.mkObj [("err", e.toJson)])
+      | .ok files' =>
+        match files'.get? (targetOf "in" out) with
+        | none => throw "no target file"
+        | some st => pure (Json.mkObj [("ok", st.text.toJson), ("enc", st.enc), ("target", targetOf "in" out),
+            ("sourceKept", (files'.get? "in").map (·.enc) == some (if targetOf "in" out == "in" then st.enc else o.inEnc "utf-8"))])
   | "write" =>
     let f ← formatOf j
     let ctx ← Ctx.ofJson (← j.getObjVal? "ctx")
@@ -104,6 +147,20 @@ def handle (op : String) (j : Json) : Except String Json := do
       let r ← excResult Ctx.toJson (fetch f c (fuelOf j) ctx2 files)
       pure (Json.mkObj [("write", Json.mkObj [("ok", Json.arr (files.map fun (p, v) =>
               Json.arr #[Json.str p, v.toJson]).toArray)]), ("fetch", r)])
+  | "session" =>
+    -- {files: [[path, doc]], ops: [{op, format, ctx, in?, out?}]}: `runSession` with the ideal codecs
+    let fl ← (← (← j.getObjVal? "files").getArr?).toList.mapM fun p => do
+      match p with
+      | .arr #[k, v] => do
+        let d ← Val.ofJson v
+        if !isDoc d then throw "not a document tree"
+        pure ((← k.getStr?), d)
+      | _ => throw "file entry must be [path, doc]"
+    let ops ← (← (← j.getObjVal? "ops").getArr?).toList.mapM sopOfJson
+    let r := runSession idealFor (fuelOf j) fl ops
+    let obs ← r.2.mapM sobsToJson
+    pure (Json.mkObj [("obs", Json.arr obs.toArray),
+      ("files", Json.arr (r.1.map fun (p, v) => Json.arr #[Json.str p, v.toJson]).toArray)])
   | "parser" =>
     let f ← formatOf j
     let d ← Val.ofJson (← j.getObjVal? "doc")
